@@ -1,5 +1,6 @@
 import Gedcom.Model.Ident
 import Gedcom.Model.CopyDoc
+import Gedcom.Model.EqualTies
 import Driver.Util
 import Driver.Tree
 namespace Driver
@@ -46,14 +47,14 @@ def handleEqual (cmd : String) (rest : List String) : Option String :=
     -- deq <forest of two trees a b> : Equals(a,b) Equals(b,a) DeepEqual(a,b) DeepEqual(b,a)
     match parseForest rest with
     | some ([a, b], []) =>
-      some s!"{b2s (equalsShallow a b)}{b2s (equalsShallow b a)} {b2s (deepEqual a b)}{b2s (deepEqual b a)}"
+      some s!"{b2s (equalsShallow a b)}{b2s (equalsShallow b a)} {b2s (deepEqual a b)}{b2s (deepEqual b a)}{tieMark [a] [b]}"
     | _ => some "bad-op"
   | "deqn" =>
     -- deqn <forest l> <forest r> : DeepEqualNodes(l, r)
     match parseForest rest with
     | some (l, rest') =>
       match parseForest rest' with
-      | some (r, []) => some (b2s (deepEqualNodes l r))
+      | some (r, []) => some (b2s (deepEqualNodes l r) ++ tieMark l r)
       | _ => some "bad-op"
     | none => some "bad-op"
   | "copy" =>
@@ -136,7 +137,7 @@ def handleEqual (cmd : String) (rest : List String) : Option String :=
     match parseOpt rest with
     | some (a, rest') =>
       match parseOpt rest' with
-      | some (b, []) => some (b2s (deepEqualOpt a b))
+      | some (b, []) => some (b2s (deepEqualOpt a b) ++ tieMark a.toList b.toList)
       | _ => some "bad-op"
     | none => some "bad-op"
   | "deqno" =>
@@ -144,7 +145,7 @@ def handleEqual (cmd : String) (rest : List String) : Option String :=
     match parseOptList rest with
     | some (l, rest') =>
       match parseOptList rest' with
-      | some (r, []) => some (b2s (deepEqualNodesOpt l r))
+      | some (r, []) => some (b2s (deepEqualNodesOpt l r) ++ tieMark (l.filterMap id) (r.filterMap id))
       | _ => some "bad-op"
     | none => some "bad-op"
   | "copynil" =>
